@@ -54,6 +54,12 @@ pub struct WorldSpec {
     /// epochs that pass between scheduling the change and the first pool instruction (0, 1: still pending; >= 2: in force)
     #[serde(default)]
     pub epoch_advance: u8,
+    /// mint_kind == 3: the first / second mint carries a TransferHook extension (hook program 1 / 2 of the runtime); such mints need a
+    /// token badge, which the world issues
+    #[serde(default)]
+    pub hook1: bool,
+    #[serde(default)]
+    pub hook2: bool,
     /// packaging: create this many (empty) tick arrays on each side of the start price before any position exists
     #[serde(default)]
     pub precreate_arrays: u8,
@@ -229,7 +235,22 @@ impl Hist {
         let ix = w.ix_init_fee_tier(cfg, spec.tick_spacing, spec.fee_rate.min(60000));
         w.must("initialize_fee_tier", &ix);
         let (m1, m2) = if spec.mint_kind == 3 {
-            let (mut m1, mut m2) = (w.create_t22_mint(spec.tf1), w.create_t22_mint(spec.tf2));
+            let (mut m1, mut m2) = (
+                w.create_t22_mint_hooked(spec.tf1, spec.hook1.then(|| crate::rt::hook_program(1))),
+                w.create_t22_mint_hooked(spec.tf2, spec.hook2.then(|| crate::rt::hook_program(2))),
+            );
+            if spec.hook1 || spec.hook2 {
+                // transfer-hook mints are admitted only with a token badge of this config
+                w.init_config_extension(cfg);
+                let ix = w.ix_set_config_feature_flag(cfg, whirlpool::state::ConfigFeatureFlag::TokenBadge(true));
+                w.must("token badge feature", &ix);
+                for m in [&m1, &m2] {
+                    if m.hook.is_some() {
+                        let ix = w.ix_init_token_badge(cfg, &m.key);
+                        w.must("token badge for a transfer-hook mint", &ix);
+                    }
+                }
+            }
             for (m, next) in [(&mut m1, spec.tf1_next), (&mut m2, spec.tf2_next)] {
                 if let (Some(_), Some((bp, max))) = (m.transfer_fee, next) {
                     w.set_transfer_fee(&m.key, bp.min(10_000), max);
@@ -341,7 +362,7 @@ impl Hist {
             self.w.must("initialize_fee_tier(2)", &ix);
         }
         let shared = self.w.mint_of(self.pool, share_a);
-        let newm = if spec2.mint_kind == 3 { self.w.create_t22_mint(spec2.tf2) } else if spec2.mint_kind >= 1 { self.w.create_t22_mint(None) } else { self.w.create_spl_mint() };
+        let newm = if spec2.mint_kind == 3 && spec2.hook2 { let m = self.w.create_t22_mint_hooked(spec2.tf2, Some(crate::rt::hook_program(2))); if self.w.configs[cfg].config_extension.is_none() { self.w.init_config_extension(cfg); let ix = self.w.ix_set_config_feature_flag(cfg, whirlpool::state::ConfigFeatureFlag::TokenBadge(true)); self.w.must("token badge feature", &ix); } let ix = self.w.ix_init_token_badge(cfg, &m.key); self.w.must("token badge (second pool)", &ix); m } else if spec2.mint_kind == 3 { self.w.create_t22_mint(spec2.tf2) } else if spec2.mint_kind >= 1 { self.w.create_t22_mint(None) } else { self.w.create_spl_mint() };
         let pool2 = match &spec2.adaptive {
             Some(k) => {
                 let auth = self.w.new_signer();
@@ -545,6 +566,7 @@ impl Hist {
         if self.needs_v2() {
             let forced = match op.clone() {
                 Op::Increase { pos, liquidity, variant: IncVariant::V1 } => Some(Op::Increase { pos, liquidity, variant: IncVariant::V2 }),
+                Op::Increase { pos, liquidity, variant: IncVariant::ForAmount { token_a, target, frac, v2: false } } => Some(Op::Increase { pos, liquidity, variant: IncVariant::ForAmount { token_a, target, frac, v2: true } }),
                 Op::Decrease { pos, amount, v2: false } => Some(Op::Decrease { pos, amount, v2: true }),
                 Op::Swap { trader, a_to_b, exact_in, amount, limit, v2: false } => Some(Op::Swap { trader, a_to_b, exact_in, amount, limit, v2: true }),
                 Op::SwapBack { trader, exact_in, delta, v2: false } => Some(Op::SwapBack { trader, exact_in, delta, v2: true }),
@@ -889,6 +911,8 @@ pub fn spec_strategy(with_rewards: bool, wrap_bias: bool) -> BoxedStrategy<World
             tf1_next: None,
             tf2_next: None,
             epoch_advance: 0,
+            hook1: false,
+            hook2: false,
             precreate_arrays: 0,
             adaptive: None,
             trade_enable_delay: None,
@@ -1065,10 +1089,13 @@ pub fn tf_strategy() -> BoxedStrategy<Option<(u16, u64)>> {
 
 
 /// turn a history into one over Token-2022 transfer-fee mints: current schedules, optionally a scheduled change that is
-/// still pending (epoch_advance 0 / 1) or already in force (>= 2) when the pool is used
+/// still pending (epoch_advance 0 / 1) or already in force (>= 2) when the pool is used; four in seven also carry transfer hooks
+/// (executed by the runtime's native hook programs) on one or both mints
 pub fn with_fee_mints(h: BoxedStrategy<HistoryCase>) -> BoxedStrategy<HistoryCase> {
-    (h, tf_strategy(), tf_strategy(), prop_oneof![2 => Just(None), 3 => tf_strategy()], prop_oneof![2 => Just(None), 3 => tf_strategy()], prop_oneof![3 => Just(0u8), 2 => Just(1u8), 2 => Just(2u8), 1 => Just(3u8)])
-        .prop_map(|(mut h, tf1, tf2, n1, n2, adv)| {
+    (h, tf_strategy(), tf_strategy(), prop_oneof![2 => Just(None), 3 => tf_strategy()], prop_oneof![2 => Just(None), 3 => tf_strategy()], prop_oneof![3 => Just(0u8), 2 => Just(1u8), 2 => Just(2u8), 1 => Just(3u8)], prop_oneof![3 => Just((false, false)), 1 => Just((true, false)), 1 => Just((false, true)), 2 => Just((true, true))])
+        .prop_map(|(mut h, tf1, tf2, n1, n2, adv, (hook1, hook2))| {
+            h.spec.hook1 = hook1;
+            h.spec.hook2 = hook2;
             h.spec.mint_kind = 3;
             h.spec.tf1 = tf1;
             h.spec.tf2 = tf2;
